@@ -143,7 +143,9 @@ fn main() {
             let ctx = Ctx { id: id.clone(), tier, seed, shard: 0, nshards: 1, out_path: scratch.join("replay.json"), scratch: scratch.clone(), only_case: case, mode, detail: rp["detail"].clone() };
             let check = checks::get(&id).expect("known property");
             let mut out = Out::default();
-            let attempts = if check.timing_dependent { 20 } else { 1 };
+            // merges copy in index order, which differs from process to process: a case with merges may
+            // need a few attempts even when no timing is involved
+            let attempts = std::env::var("BCVERIF_ATTEMPTS").ok().and_then(|x| x.parse().ok()).unwrap_or(if check.timing_dependent { 20 } else { 5 });
             let mut fired = false;
             for a in 0..attempts {
                 out = Out::default();
